@@ -193,6 +193,10 @@ type Item struct {
 	Eq   int    `json:"eq,omitempty"`
 	Comp string `json:"comp,omitempty"`
 	Pg   int    `json:"pg,omitempty"` // pg: index of the included page
+	// inc: written as the registered shorthand component tag <x-a …>…</x-a> instead of
+	// <template include="components/A.vuego" …>…</template> (both engines register x-<name> for
+	// every component of the site)
+	Sh   bool   `json:"sh,omitempty"`
 	Kids []Item `json:"kids,omitempty"`
 	// inc: content of <template #s1> inside the include tag
 	Named []Item `json:"named,omitempty"`
@@ -416,12 +420,14 @@ var loopLens = []int{0, 1, 2, 2, 3, 3}
 // spellings of the directive in the source. HTML attribute names are case-insensitive (the HTML
 // parser lower-cases them) and an empty value is the same as no value, so all of them mark the
 // element alike; the model does not look at Sp.
-var spellings = []string{`v-once`, `V-Once`, `V-ONCE`, `v-Once`, `v-once=""`}
+// boolean attribute may also be written with its own name or "true" as value, single-quoted, etc.
+var spellings = []string{`v-once`, `V-Once`, `V-ONCE`, `v-once="v-once"`, `v-once="true"`, `v-Once`, `v-once=""`, `v-once=''`, `V-ONCE="V-ONCE"`}
 
 // idAttrs are attributes that look like identities; the value is the same wherever one is used.
 var idAttrs = []string{``, `src="/assets/js/component.js"`, `id="once"`, `href="/assets/css/site.css"`, `data-key="k1"`, `name="once"`, `class="once" title="once"`}
 
-var leafTags = []string{"style", "b", "script", "span", "i"}
+// link is a void element and is written self-closing: <link v-once … />
+var leafTags = []string{"style", "b", "script", "span", "i", "link"}
 var boxTags = []string{"div", "section"}
 
 func isBox(tag string) bool { return tag == "div" || tag == "section" }
@@ -490,12 +496,28 @@ func src(items []Item, sb *strings.Builder) {
 		switch it.K {
 		case "once":
 			sp := spellings[it.Sp%len(spellings)]
-			attrs := fmt.Sprintf(`%s data-m="o%d"`, sp, it.M)
+			dm := fmt.Sprintf(`data-m="o%d"`, it.M)
+			if it.M%3 == 0 {
+				dm = fmt.Sprintf(`data-m='o%d'`, it.M) // single-quoted value
+			}
+			attrs := sp + " " + dm
 			if it.M%2 == 1 {
-				attrs = fmt.Sprintf(`data-m="o%d" %s`, it.M, sp)
+				attrs = dm + " " + sp
+			}
+			// the directive is written before or after the other control attributes of the tag
+			ctlFirst := it.M%4 >= 2
+			ctl := func(a string) {
+				if ctlFirst {
+					attrs = a + " " + attrs
+				} else {
+					attrs += " " + a
+				}
 			}
 			if it.Self {
-				attrs += fmt.Sprintf(` v-for="x in n%d"`, it.N)
+				ctl(fmt.Sprintf(`v-for="x in n%d"`, it.N))
+				if it.M%5 == 1 {
+					ctl(`:key="x"`)
+				}
 			}
 			if it.At > 0 && !strings.HasPrefix(it.Ch, "tpl") {
 				if it.M%2 == 0 {
@@ -519,25 +541,31 @@ func src(items []Item, sb *strings.Builder) {
 				fmt.Fprintf(sb, "<p data-m=\"u%d\" v-if=\"%s\">u</p>\n<template v-else %s>", it.M, condSrc(it), sp)
 				attrs = fmt.Sprintf(`data-m="o%d"`, it.M)
 			case "if":
-				attrs += fmt.Sprintf(` v-if="%s"`, condSrc(it))
+				ctl(fmt.Sprintf(`v-if="%s"`, condSrc(it)))
 			case "else":
 				fmt.Fprintf(sb, "<p data-m=\"u%d\" v-if=\"%s\">u</p>\n", it.M, condSrc(it))
-				attrs += " v-else"
+				ctl("v-else")
 			case "elseif":
 				fmt.Fprintf(sb, "<p data-m=\"u%d\" v-if=\"%s\">u</p>\n", it.M, condSrc(it))
-				attrs += ` v-else-if="t"`
+				ctl(`v-else-if="t"`)
 			case "tpl":
 				fmt.Fprintf(sb, "<template %s>", sp)
 				attrs = fmt.Sprintf(`data-m="o%d"`, it.M)
 			}
-			fmt.Fprintf(sb, "<%s %s>", it.Tag, attrs)
-			if isBox(it.Tag) {
-				sb.WriteString("\n")
-				src(it.Kids, sb)
-			} else {
-				sb.WriteString(onceBody(it))
+			tag := it.Tag
+			if it.M%5 == 0 {
+				tag = strings.ToUpper(tag) // tag names are case-insensitive too
 			}
-			fmt.Fprintf(sb, "</%s>\n", it.Tag)
+			switch {
+			case it.Tag == "link":
+				fmt.Fprintf(sb, "<%s %s rel=\"stylesheet\"/>\n", tag, attrs)
+			case isBox(it.Tag):
+				fmt.Fprintf(sb, "<%s %s>\n", tag, attrs)
+				src(it.Kids, sb)
+				fmt.Fprintf(sb, "</%s>\n", tag)
+			default:
+				fmt.Fprintf(sb, "<%s %s>%s</%s>\n", tag, attrs, onceBody(it), tag)
+			}
 			if it.Self && it.El {
 				fmt.Fprintf(sb, "<p data-m=\"z%d\" v-else>z</p>\n", it.M)
 			}
@@ -562,7 +590,14 @@ func src(items []Item, sb *strings.Builder) {
 		case "pg":
 			fmt.Fprintf(sb, "<template v-if=\"!deep\" include=\"%s\" :deep=\"t\"></template>\n", pageName(it.Pg))
 		case "inc":
-			fmt.Fprintf(sb, "%s<template include=\"components/%s.vuego\"%s>", onceHead(it), it.Comp, onceAttrs(it))
+			switch {
+			case it.Sh:
+				fmt.Fprintf(sb, "%s<x-%s%s>", onceHead(it), strings.ToLower(it.Comp), onceAttrs(it))
+			case it.O && it.M%2 == 0: // the directive (and chain membership) before the include attribute
+				fmt.Fprintf(sb, "%s<template%s include=\"components/%s.vuego\">", onceHead(it), onceAttrs(it), it.Comp)
+			default:
+				fmt.Fprintf(sb, "%s<template include=\"components/%s.vuego\"%s>", onceHead(it), it.Comp, onceAttrs(it))
+			}
 			if len(it.Kids) > 0 {
 				sb.WriteString("\n")
 				src(it.Kids, sb)
@@ -576,7 +611,11 @@ func src(items []Item, sb *strings.Builder) {
 				src(it.Named, sb)
 				sb.WriteString("</template>\n")
 			}
-			sb.WriteString("</template>\n")
+			if it.Sh {
+				fmt.Fprintf(sb, "</x-%s>\n", strings.ToLower(it.Comp))
+			} else {
+				sb.WriteString("</template>\n")
+			}
 		case "slot", "pslot":
 			switch {
 			case it.K == "pslot" && it.Nm:
@@ -738,7 +777,7 @@ func validate(c Case) error {
 				if it.Sp < 0 || it.Sp >= len(spellings) {
 					return fmt.Errorf("bad spelling %d", it.Sp)
 				}
-				if head && it.Tag != "style" && it.Tag != "script" {
+				if head && it.Tag != "style" && it.Tag != "script" && it.Tag != "link" {
 					return fmt.Errorf("only style/script in <head>")
 				}
 				if (it.Self || !isBox(it.Tag)) && len(it.Kids) > 0 {
@@ -816,6 +855,9 @@ func validate(c Case) error {
 				if err := onceOn(it, inLoop); err != nil {
 					return err
 				}
+				if it.Sh && indexOf(compOrder, it.Comp) < 0 {
+					return fmt.Errorf("shorthand tag for %q", it.Comp)
+				}
 				if err := kcOK(it, comp); err != nil {
 					return err
 				}
@@ -874,6 +916,11 @@ func validate(c Case) error {
 		for _, part := range [][]Item{p.Ph, p.Pf} {
 			if err := walk(part, pageName(i), -1, false, false); err != nil {
 				return err
+			}
+			// not generated: shorthand component tags inside slot templates that a layout chain hands
+			// on (on the pinned code they reach the layout unresolved - a matter of C05 / C06)
+			if hasShorthand(part) {
+				return fmt.Errorf("page %d: shorthand component tag in a handed-on slot template", i)
 			}
 		}
 		inContent--
@@ -1285,14 +1332,23 @@ type engine struct {
 func newEngine(c *Case) *engine {
 	e := &engine{fsys: memfs.FromMap(files(*c)), parsed: map[int][]*html.Node{}}
 	// stop() lets a render cancel its own context late in the page (Boom "cancel")
+	// shorthand component tags x-a … for every component of the site
+	register := func(v *vuego.Vue) {
+		for _, n := range compOrder {
+			if _, ok := c.Comps[n]; ok {
+				v.RegisterComponent("x-"+strings.ToLower(n), "components/"+n+".vuego")
+			}
+		}
+	}
 	e.tpl = vuego.NewFS(e.fsys, vuego.WithFuncs(vuego.FuncMap{"stop": func() string {
 		if e.stop != nil {
 			e.stop()
 		}
 		return ""
-	}}))
+	}}), vuego.LoadOption(register))
 	e.kept = e.tpl.New()
 	e.vue = vuego.NewVue(e.fsys)
+	register(e.vue)
 	return e
 }
 
@@ -1654,6 +1710,12 @@ func classify(c Case) (bool, []string) {
 			case "div":
 				walk(it.Kids, kind, inLoop, inOnce, underIf)
 			case "inc":
+				if it.Sh {
+					set["include written as shorthand component tag"] = true
+					if it.O {
+						set["once=on-shorthand-component-tag"] = true
+					}
+				}
 				if it.O {
 					set["once=on-include-tag"] = true
 					if it.Ch != "" {
@@ -2003,7 +2065,9 @@ func universe(fill []string, p uparams) Case {
 	P = append(P, Item{K: "for", M: u.id(), N: p.nA, Kids: u.slot("s1", all)})
 	P = append(P, Item{K: "for", M: u.id(), N: p.nB, Kids: []Item{inc("A")}})
 	for k := 0; k < p.kA; k++ {
-		P = append(P, inc("A"))
+		a := inc("A")
+		a.Sh = k%2 == 1 // <x-a> next to <template include>
+		P = append(P, a)
 	}
 	P = append(P, inc("B"))
 	for _, tn := range twinNames("A", p.twin) { // the twin file(s) of A, after A itself
@@ -2020,8 +2084,8 @@ func universe(fill []string, p uparams) Case {
 	P = append(P, Item{K: "for", M: u.id(), N: p.nA, Kids: append(u.slotCh("k0", all, "tpl", false, 0), u.slotCh("k1", all, "tplif", true, 0)...)})
 	// v-once on include tags that are chain members: <template include v-else v-once> in a loop,
 	// <template include v-once v-if="x == 2"> in a loop of 3
-	P = append(P, Item{K: "for", M: u.id(), N: p.nB, Kids: []Item{{K: "inc", Comp: "C", O: true, M: u.id(), Ch: "else"}}})
-	P = append(P, Item{K: "for", M: u.id(), N: 3, Kids: []Item{{K: "inc", Comp: "B", O: true, M: u.id(), Ch: "if", Eq: 2}}})
+	P = append(P, Item{K: "for", M: u.id(), N: p.nB, Kids: []Item{{K: "inc", Comp: "C", O: true, M: u.id(), Ch: "else", Sh: p.sp%2 == 1}}})
+	P = append(P, Item{K: "for", M: u.id(), N: 3, Kids: []Item{{K: "inc", Comp: "B", O: true, M: u.id(), Ch: "if", Eq: 2, Sh: p.sp%2 == 0}}})
 	// component D has a default slot and a named slot, both with fallback content; the page includes
 	// it in a loop with default content, then with named content (sites without layouts), then twice bare
 	P = append(P, Item{K: "for", M: u.id(), N: p.nB, Kids: []Item{{K: "inc", Comp: "D",
@@ -2093,7 +2157,7 @@ func universe(fill []string, p uparams) Case {
 	}
 	mkDoc := func() Layout {
 		l := Layout{Doc: true}
-		l.Head = u.slot("h0", []string{"style", "script"})
+		l.Head = u.slot("h0", []string{"style", "script", "link"})
 		l.After = append(u.slot("la", all), inc("A"), Item{K: "pslot", Nm: true}, Item{K: "for", M: u.id(), N: 2, Kids: []Item{{K: "pslot"}}})
 		return l
 	}
@@ -2231,7 +2295,7 @@ func (g *gen) base(name string) string {
 func (g *gen) bare(name string) []Item {
 	l := "bare" + name
 	sp := func(i int) int {
-		return rapid.SampledFrom([]int{0, 0, 1, 2, 3, 4}).Draw(g.t, fmt.Sprintf("%s.%dsp", l, i))
+		return rapid.SampledFrom([]int{0, 0, 1, 2, 3, 4, 5, 6, 7, 8}).Draw(g.t, fmt.Sprintf("%s.%dsp", l, i))
 	}
 	if rapid.IntRange(0, 4).Draw(g.t, l+"sole") == 0 {
 		g.budget--
@@ -2255,6 +2319,23 @@ func (g *gen) bare(name string) []Item {
 		out = append(out, it)
 	}
 	return out
+}
+
+func hasShorthand(items []Item) bool {
+	for _, it := range items {
+		if it.Sh || hasShorthand(it.Kids) || hasShorthand(it.Named) {
+			return true
+		}
+	}
+	return false
+}
+
+func clearShorthand(items []Item) {
+	for i := range items {
+		items[i].Sh = false
+		clearShorthand(items[i].Kids)
+		clearShorthand(items[i].Named)
+	}
 }
 
 // pgTargets lists the pages that some pg item includes.
@@ -2335,7 +2416,7 @@ func (g *gen) items(label string, comp, depth int, inLoop bool, max int) []Item 
 				continue
 			}
 			g.budget--
-			it := Item{K: "once", M: g.id(), Sp: rapid.SampledFrom([]int{0, 0, 1, 1, 2, 2, 3, 4}).Draw(g.t, l+"sp")}
+			it := Item{K: "once", M: g.id(), Sp: rapid.SampledFrom([]int{0, 0, 1, 2, 3, 3, 4, 4, 5, 6, 7, 8}).Draw(g.t, l+"sp")}
 			shape := rapid.IntRange(0, 9).Draw(g.t, l+"shape")
 			switch {
 			case shape == 0: // v-for on the marked element itself
@@ -2393,6 +2474,9 @@ func (g *gen) items(label string, comp, depth int, inLoop bool, max int) []Item 
 			it := Item{K: "inc", Comp: rapid.SampledFrom(allowed).Draw(g.t, l+"comp")}
 			if g.usesK[g.base(it.Comp)] {
 				it.Kp = rapid.IntRange(1, 2).Draw(g.t, l+"kp")
+			}
+			if indexOf(compOrder, it.Comp) >= 0 && rapid.IntRange(0, 3).Draw(g.t, l+"sh") == 0 {
+				it.Sh = true
 			}
 			if rapid.IntRange(0, 4).Draw(g.t, l+"o?") == 0 {
 				g.onceOn(&it, l, inLoop)
@@ -2490,7 +2574,7 @@ func genCase(rec *ev.Rec, openRoot, openTail bool) func(t *rapid.T) Case {
 				l.Doc = true
 				if g.budget > 0 && rapid.Bool().Draw(t, "head") {
 					g.budget--
-					l.Head = []Item{{K: "once", M: g.id(), Tag: rapid.SampledFrom([]string{"style", "script"}).Draw(t, "headtag"), Sp: rapid.IntRange(0, len(spellings)-1).Draw(t, "headsp"), At: g.at}}
+					l.Head = []Item{{K: "once", M: g.id(), Tag: rapid.SampledFrom([]string{"style", "script", "link"}).Draw(t, "headtag"), Sp: rapid.IntRange(0, len(spellings)-1).Draw(t, "headsp"), At: g.at}}
 				}
 			}
 			g.inLayout = true
@@ -2503,7 +2587,7 @@ func genCase(rec *ev.Rec, openRoot, openTail bool) func(t *rapid.T) Case {
 			l := Layout{Doc: rapid.Bool().Draw(t, "basedoc")}
 			if l.Doc && g.budget > 0 && rapid.Bool().Draw(t, "basehead") {
 				g.budget--
-				l.Head = []Item{{K: "once", M: g.id(), Tag: rapid.SampledFrom([]string{"style", "script"}).Draw(t, "baseheadtag"), Sp: rapid.IntRange(0, len(spellings)-1).Draw(t, "baseheadsp"), At: g.at}}
+				l.Head = []Item{{K: "once", M: g.id(), Tag: rapid.SampledFrom([]string{"style", "script", "link"}).Draw(t, "baseheadtag"), Sp: rapid.IntRange(0, len(spellings)-1).Draw(t, "baseheadsp"), At: g.at}}
 			}
 			g.inLayout = true
 			l.After = g.items("base", -1, 1, false, 3)
@@ -2511,6 +2595,8 @@ func genCase(rec *ev.Rec, openRoot, openTail bool) func(t *rapid.T) Case {
 			c.Layouts["base"] = l
 		}
 		for i := 0; i < nPages; i++ {
+			clearShorthand(phs[i][0])
+			clearShorthand(phs[i][1])
 			p := Page{Items: g.items(fmt.Sprintf("p%d", i), -1, 0, false, 4), Ph: phs[i][0], Pf: phs[i][1]}
 			if nLay > 0 && rapid.IntRange(0, 3).Draw(t, "haslayout") > 0 {
 				p.Layout = chain[rapid.IntRange(0, nLay-1).Draw(t, "layout")]
